@@ -225,9 +225,18 @@ func runApiOp(st *apiState, conf vedirect.Config, op string) (res string) {
 		ctx, cancel := context.WithCancel(context.Background())
 		defer cancel()
 		cancelAt := -1
+		deadline := false
 		st.port.OnWrite = nil
 		if f[3] == "b" {
 			cancel()
+		} else if f[3][0] == 'd' {
+			// a context with a deadline some milliseconds ahead that is NOT reached during the run:
+			// nothing is cancelled (if the machine is so slow that it is reached, the case is skipped)
+			ms, _ := strconv.Atoi(f[3][1:])
+			var c2 context.CancelFunc
+			ctx, c2 = context.WithTimeout(ctx, time.Duration(ms)*time.Millisecond)
+			defer c2()
+			deadline = true
 		} else if f[3][0] == 'c' {
 			cancelAt, _ = strconv.Atoi(f[3][1:])
 		} else if f[3][0] == 'w' {
@@ -268,11 +277,17 @@ func runApiOp(st *apiState, conf vedirect.Config, op string) (res string) {
 				end = apiErrClass(err)
 			}
 			st.port.OnWrite = nil
+			if deadline && ctx.Err() != nil {
+				return "SKIPDEADLINE"
+			}
 			return "S" + end + "|" + strings.Join(delivered, "~")
 		}
 		// map variant: cancellation only before the run or inside a Write
 		rv, err := st.api.ReadRegisterList(ctx, rl)
 		st.port.OnWrite = nil
+		if deadline && ctx.Err() != nil {
+			return "SKIPDEADLINE"
+		}
 		end = "ok"
 		if err != nil {
 			end = apiErrClass(err)
